@@ -209,7 +209,49 @@ func checkC17(c *Ctx, r *Report) {
 				hasR = true
 			}
 		}
-		r.Check(hasL && hasR, "C17.c", "R1 PROVENANCE", "Builder.(*TemplateBuilder).buildTranslate/ReduceTrace-rule-text", c.pos(pos), "the rule text shows the left-hand side and every right-hand symbol", "the rule text omits the left- or right-hand side")
+		// … each by its display name (RemoveTempName(Name): the identifier, or 'c' for a literal), unconditionally,
+		// the right-hand side through one loop over the rule's RighPart
+		why := ""
+		if !hasL || !hasR {
+			why = "the rule text omits the left- or right-hand side"
+		}
+		walkShape(sh, func(x Shape) {
+			if _, isAlt := x.(*SAlt); isAlt && why == "" {
+				why = "part of the rule text is conditional: some symbols are shown differently from others"
+			}
+		})
+		lhsPath := "Parser.RemoveTempName(recv.vnode.GetRules(($i - 1)).LeftPart.Name)"
+		rhsPath := "Parser.RemoveTempName(elem(recv.vnode.GetRules(($i - 1)).RighPart).Name)"
+		nL, nR := 0, 0
+		for _, h := range holesOf(sh) {
+			if !isStringType(h.Typ) {
+				continue
+			}
+			switch h.Path {
+			case lhsPath:
+				nL++
+			case rhsPath:
+				nR++
+			default:
+				if why == "" {
+					why = "the rule text contains " + h.Path + ", which is not the display name (RemoveTempName(Name)) of a symbol of rule i−1"
+				}
+			}
+		}
+		if why == "" && (nL != 1 || nR != 1) {
+			why = fmt.Sprintf("the rule text shows the left-hand side %d time(s) and the right-hand symbols through %d name hole(s), expected one each", nL, nR)
+		}
+		rhsLoop := false
+		for _, lp := range loopsIn(sh) {
+			if lp.Over == "recv.vnode.GetRules(($i - 1)).RighPart" {
+				rhsLoop = true
+			}
+		}
+		if why == "" && !rhsLoop {
+			why = "the right-hand side is not produced by a loop over the rule's RighPart"
+		}
+		r.Check(why == "", "C17.c", "R1 PROVENANCE", "Builder.(*TemplateBuilder).buildTranslate/ReduceTrace-rule-text", c.pos(pos),
+			"the rule text is `lhs -> x1 x2 …`: the display name of the left-hand side and, in one unconditional loop over RighPart, the display name of every right-hand symbol", why)
 	} else {
 		r.Fail("C17.c", "R1 PROVENANCE", "Builder.(*TemplateBuilder).buildTranslate/ReduceTrace", "Builder/GoTemplBuilder.go", "ReduceTrace is never built")
 	}
